@@ -80,6 +80,6 @@ def run(ctx):
                  "PageRank::run on a VecGraph (all cases), webgraph_cli::rank::pagerank::main on a BvGraph written to disk with ASCII "
                  "preference/rank files (1 in 10), webgraph_cli::rank::cli_main through the argument parser (1 in 200); "
                  "one PRNG; non-trivial = at least 2 nodes and 1 arc; distinct = different (graph, configuration)")
-    violations, known = codec.verdict("C18", r, known_matchers=[known_cli_short_t, known_noise_floor])
+    violations, known = codec.verdict("C18", r, known_matchers=[known_noise_floor])
     r.update({"violations": violations, "known": known})
     return r
